@@ -6,6 +6,11 @@ import GA.Props.C09
 For every length, index and element identity, `MemBody.run` on the *regenerated statement lists* of
 `GA.Gen.SeqBody` returns exactly the `List` operation's result, drops nothing it hands out and hands out nothing
 twice (the result value lists every returned block and every id dropped by the function's own scope end).
+
+One bridge module per function family, so that a body that can no longer be lowered (or whose theorem no longer checks)
+fails the obligations of the properties that are about that function and of no other: this module holds the owned
+sequence operations and the by-reference `split` (C09, C03); `GA.Bridge.SliceBody` the slice views of src/lib.rs (C02),
+`GA.Bridge.ChunkBody` the chunk views (C10), `GA.Bridge.RegroupBody` by-reference flatten / unflatten (C11).
 -/
 namespace GA.Bridge.SeqBody
 open GA.MemBody GA.Seq GA.Gen GA.Props.C09
@@ -152,89 +157,5 @@ theorem splitMut_body (n k i : Nat) (hk : k ≤ n) :
     runViews true SeqBody.splitMut ⟨n, k, i⟩ = .views [⟨0, k, true⟩, ⟨k, n - k, true⟩] := by
   have h2 : k + (n - k) ≤ n := by omega
   simp [runViews, SeqBody.splitMut, vexec, vstep, lookupP, lookupV, lookupVs, LX.eval, noAlias, View.disjoint, hk, h2]
-
-/-! ### The slice reinterpretations of src/lib.rs (`len` = length of the argument slice, passed as `K`) -/
-
-/-- `as_slice` / `as_mut_slice`: one view of exactly the `N` elements at the array's own address, made from the receiver
-    reference itself (`self as *const Self` / `self as *mut Self`), writable only through the `&mut` receiver -/
-theorem asSlice_body (n k i : Nat) :
-    runViews false SeqBody.asSlice ⟨n, k, i⟩ = .views [⟨0, n, false⟩] ∧
-    runViews true SeqBody.asMutSlice ⟨n, k, i⟩ = .views [⟨0, n, true⟩] := by
-  constructor <;>
-    simp [runViews, SeqBody.asSlice, SeqBody.asMutSlice, vexec, vstep, lookupP, lookupV, lookupVs, LX.eval, noAlias]
-
-/-- `from_slice`: panics unless `len = N`; then one shared view of exactly the slice, at its address -/
-theorem fromSlice_body (n len i : Nat) :
-    runViews false SeqBody.fromSlice ⟨n, len, i⟩ = if len ≠ n then .panic else .views [⟨0, n, false⟩] := by
-  by_cases h : len = n
-  · subst h; simp [runViews, SeqBody.fromSlice, vexec, vstep, lookupP, lookupV, lookupVs, LX.eval, BX.eval, noAlias]
-  · simp [runViews, SeqBody.fromSlice, vexec, vstep, LX.eval, BX.eval, h]
-
-/-- `try_from_slice`: `Err(LengthError)` unless `len = N` -/
-theorem tryFromSlice_body (n len i : Nat) :
-    runViews false SeqBody.tryFromSlice ⟨n, len, i⟩ = if len ≠ n then .err else .views [⟨0, n, false⟩] := by
-  by_cases h : len = n
-  · subst h; simp [runViews, SeqBody.tryFromSlice, vexec, vstep, lookupP, lookupV, lookupVs, LX.eval, BX.eval, noAlias]
-  · simp [runViews, SeqBody.tryFromSlice, vexec, vstep, LX.eval, BX.eval, h]
-
-/-- `from_mut_slice`: the assertion fails unless `len = N`; then one mutable view made from the unique borrow's pointer -/
-theorem fromMutSlice_body (n len i : Nat) :
-    runViews true SeqBody.fromMutSlice ⟨n, len, i⟩ = if len = n then .views [⟨0, n, true⟩] else .panic := by
-  by_cases h : len = n
-  · subst h; simp [runViews, SeqBody.fromMutSlice, vexec, vstep, lookupP, lookupV, lookupVs, LX.eval, BX.eval, noAlias]
-  · simp [runViews, SeqBody.fromMutSlice, vexec, vstep, LX.eval, BX.eval, h]
-
-/-- `chunks_from_slice` for `N > 0`: the chunk view covers `[0, (len / N) · N)`, the remainder `[(len / N) · N, len)`;
-    both are made from pointers to the argument slice and lie inside it -/
-theorem chunksFromSlice_body (n len i : Nat) (hn : 0 < n) :
-    runViews false SeqBody.chunksFromSlice ⟨n, len, i⟩ =
-      .views [⟨0, len / n * n, false⟩, ⟨len / n * n, len - len / n * n, false⟩] := by
-  have h0 : ¬ n = 0 := by omega
-  have h1 : len / n * n ≤ len := Nat.div_mul_le_self len n
-  have h2 : len / n * n + (len - len / n * n) ≤ len := by omega
-  simp [runViews, SeqBody.chunksFromSlice, vexec, vstep, lookupP, lookupV, lookupVs, LX.eval, BX.eval, noAlias, h0, h1, h2]
-
-/-- `chunks_from_slice` for `N = 0`: two empty views for an empty slice, the assertion fails otherwise -/
-theorem chunksFromSlice_body_zero (len i : Nat) :
-    runViews false SeqBody.chunksFromSlice ⟨0, len, i⟩ = if len = 0 then .views [⟨0, 0, false⟩, ⟨0, 0, false⟩] else .panic := by
-  by_cases h : len = 0
-  · subst h; simp [runViews, SeqBody.chunksFromSlice, vexec, vstep, LX.eval, BX.eval, List.replicate]
-  · simp [runViews, SeqBody.chunksFromSlice, vexec, vstep, LX.eval, BX.eval, h]
-
-/-- `chunks_from_slice_mut` for `N > 0`: the same two extents as mutable views, both from the *one* pointer taken
-    through the unique borrow (a second `as_mut_ptr()` would end the first view — the defect repaired in /repo), and
-    they do not overlap -/
-theorem chunksFromSliceMut_body (n len i : Nat) (hn : 0 < n) :
-    runViews true SeqBody.chunksFromSliceMut ⟨n, len, i⟩ =
-      .views [⟨0, len / n * n, true⟩, ⟨len / n * n, len - len / n * n, true⟩] := by
-  have h0 : ¬ n = 0 := by omega
-  have h1 : len / n * n ≤ len := Nat.div_mul_le_self len n
-  have h2 : len / n * n + (len - len / n * n) ≤ len := by omega
-  simp [runViews, SeqBody.chunksFromSliceMut, vexec, vstep, lookupP, lookupV, lookupVs, LX.eval, BX.eval, noAlias, View.disjoint,
-    h0, h1, h2]
-
-theorem chunksFromSliceMut_body_zero (len i : Nat) :
-    runViews true SeqBody.chunksFromSliceMut ⟨0, len, i⟩ = if len = 0 then .views [⟨0, 0, true⟩, ⟨0, 0, true⟩] else .panic := by
-  by_cases h : len = 0
-  · subst h; simp [runViews, SeqBody.chunksFromSliceMut, vexec, vstep, LX.eval, BX.eval, List.replicate]
-  · simp [runViews, SeqBody.chunksFromSliceMut, vexec, vstep, LX.eval, BX.eval, h]
-
-/-- `slice_from_chunks(_mut)`: one view of all `len · N` elements of the chunk slice, at its address -/
-theorem sliceFromChunks_body (n len i : Nat) :
-    runViews false SeqBody.sliceFromChunks ⟨n, len, i⟩ = .views [⟨0, len * n, false⟩] ∧
-    runViews true SeqBody.sliceFromChunksMut ⟨n, len, i⟩ = .views [⟨0, len * n, true⟩] := by
-  constructor <;>
-    simp [runViews, SeqBody.sliceFromChunks, SeqBody.sliceFromChunksMut, vexec, vstep, lookupP, lookupV, lookupVs, LX.eval, noAlias]
-
-/-- by-reference `flatten` (`N·M` elements; `K` carries `M`) and `unflatten` (`NM` elements; `K` carries `NM`): the receiver
-    reference retyped — one view of the whole storage at its address, with the receiver's mutability -/
-theorem regroupRef_body (n k i : Nat) :
-    runViews false SeqBody.flattenRef ⟨n, k, i⟩ = .views [⟨0, n * k, false⟩] ∧
-    runViews true SeqBody.flattenMut ⟨n, k, i⟩ = .views [⟨0, n * k, true⟩] ∧
-    runViews false SeqBody.unflattenRef ⟨n, k, i⟩ = .views [⟨0, k, false⟩] ∧
-    runViews true SeqBody.unflattenMut ⟨n, k, i⟩ = .views [⟨0, k, true⟩] := by
-  refine ⟨?_, ?_, ?_, ?_⟩ <;>
-    simp [runViews, SeqBody.flattenRef, SeqBody.flattenMut, SeqBody.unflattenRef, SeqBody.unflattenMut, vexec, vstep, lookupV,
-      lookupVs, LX.eval, noAlias]
 
 end GA.Bridge.SeqBody
